@@ -4,6 +4,7 @@
 # the overlay; all build output, evidence and replays land in a scratch upper layer that is
 # removed afterwards.
 # usage: tools/mutant_run.sh <patch-file> <tier> <Cxx> [<Cxx> ...]
+# MUT_STOP_AT_FIRST=1 stops after the first check that reports a violation.
 # prints one line per check:  <Cxx> DETECTED|MISSED|INCONCLUSIVE  <first signature>
 PATCH="$(realpath "$1")"; TIER="$2"; shift 2
 S=$(mktemp -d /tmp/kv-mut.XXXXXX)
@@ -17,7 +18,7 @@ unshare -m bash -c "
   for c in $*; do
     out=\$(VERIF_SEED=\${VERIF_SEED:-1} ./check \$c $TIER 2>&1); rc=\$?
     sig=\$(echo \"\$out\" | grep -m1 'signature:' | sed 's/^ *signature: //')
-    if [ \$rc -eq 1 ] && echo \"\$out\" | grep -q '^VIOLATION'; then echo \"\$c DETECTED \$sig\";
+    if [ \$rc -eq 1 ] && echo \"\$out\" | grep -q '^VIOLATION'; then echo \"\$c DETECTED \$sig\"; [ -n \"\${MUT_STOP_AT_FIRST:-}\" ] && break;
     elif [ \$rc -eq 0 ]; then echo \"\$c MISSED\";
     else echo \"\$c INCONCLUSIVE rc=\$rc \$(echo \"\$out\" | grep -m2 -E 'INCONCLUSIVE|error' | tr '\n' ' ' | cut -c1-300)\"; fi
   done
